@@ -116,6 +116,12 @@ def init (cfg : Cfg ρ) (mx : ρ) : St ρ :=
       let i : Int := (k : Int) - 1
       { occ := stagePreload i, pre := stagePreload i, fast := true, xf := 0 } }
 
+/-- `if (p->num_stages0) half_phase(&p->halfer, …)`: is the output of the up-sampling stream (`poly_fir_u`, stage −1) run
+    through the all-pass that matches the phase of the half-band IIR of the down-sampling path?  Exactly on engines that
+    can down-sample at all (declared maximum `> 1`).  (The filter itself is a sample kernel and not modelled; which
+    engines run it is probed on the real code by the generator: `Gen.halfPhaseProbe`.) -/
+def St.halfPhase (s : St ρ) : Bool := decide (s.ns0 ≠ 0)
+
 /-- `enter_new_stage` on the stream (the `input` pointer is not modelled). -/
 def enterStream (c : Stream) (occ0 : Int) : Stream :=
   let d := decide (c.sn ≥ 0)
